@@ -1,6 +1,7 @@
 package main
 
 import (
+	"bytes"
 	"errors"
 	"fmt"
 	"math/big"
@@ -87,7 +88,39 @@ type hdrT struct {
 }
 
 func donorHeader(powid int, nonce uint32, root [32]byte, time uint32) *types.AuxPowHeader {
-	return types.NewBlockHeader(types.PowID(powid), 0x20000000, [32]byte{1, 2, 3}, root, time, 0x1d00ffff, nonce, 77)
+	return mkDonor(types.PowID(powid), 0x20000000, [32]byte{1, 2, 3}, root, time, 0x1d00ffff, nonce, 77)
+}
+
+// mkDonor builds a donor header with exactly the given fields.  (types.NewBlockHeader cannot be used for the
+// Bitcoin-like chains: the btcd/bchd/ltcd constructors it calls ignore the time argument and stamp time.Now().)
+func mkDonor(powid types.PowID, version int32, prev [32]byte, root [32]byte, time uint32, bits uint32, nonce uint32, height uint32) *types.AuxPowHeader {
+	raw := make([]byte, 0, 80)
+	le := func(v uint32) []byte { return []byte{byte(v), byte(v >> 8), byte(v >> 16), byte(v >> 24)} }
+	raw = append(raw, le(uint32(version))...)
+	raw = append(raw, prev[:]...)
+	raw = append(raw, root[:]...)
+	raw = append(raw, le(time)...)
+	raw = append(raw, le(bits)...)
+	raw = append(raw, le(nonce)...)
+	var inner types.AuxHeaderData
+	switch powid {
+	case types.Kawpow:
+		h := types.NewRavencoinBlockHeader(version, prev, root, time, bits, height)
+		h.SetNonce64(uint64(nonce))
+		return types.NewAuxPowHeader(h)
+	case types.SHA_BTC:
+		inner = &types.BitcoinHeaderWrapper{}
+	case types.SHA_BCH:
+		inner = &types.BitcoinCashHeaderWrapper{}
+	case types.Scrypt:
+		inner = &types.LitecoinHeaderWrapper{}
+	default:
+		return nil
+	}
+	if err := inner.Deserialize(bytes.NewReader(raw)); err != nil {
+		panic(err)
+	}
+	return types.NewAuxPowHeader(inner)
 }
 
 func (x hdrT) build() (*types.WorkObjectHeader, []byte) {
@@ -455,7 +488,9 @@ func caseSeal(h *H, r *hlib.Rng, variant string) {
 
 // ---------- CheckWorkThreshold ----------
 
-func thrCorpus() []string { return []string{"d0-k3", "d0-k0", "d1-k7", "d3-exact", "d3-exact+1", "kneg"} }
+func thrCorpus() []string {
+	return []string{"d0-k3", "d0-k0", "d1-k7", "d3-exact", "d3-exact+1", "kneg"}
+}
 
 // independent formulation: hash <= floor(2^256/d) * 2^k  <=>  ceil(hash / 2^k) * d <= 2^256   (d > 0)
 func thrHolds(hv, d *big.Int, k int) bool {
@@ -506,7 +541,7 @@ func caseThr(h *H, r *hlib.Rng, variant string) {
 	h.emit(fmt.Sprintf("CThr %s %s %s %s", e.coq(), x.coq(donorPow), coqI(int64(k)), obs), map[string]any{"hdr": x.desc(), "k": k, "h0": e.h0.Hex(), "h1": e.h1.Hex(), "got": obs}, nt)
 	h.rep.Count("thr:" + obs)
 	if p != "" {
-		h.fail(panicSig("CheckWorkThreshold", x.diff), fmt.Sprintf("CheckWorkThreshold(difficulty=%s, thresholdDiff=%d) panicked: %s", x.diff, k, p))
+		h.fail(panicSig("CheckWorkThreshold", p), fmt.Sprintf("CheckWorkThreshold(difficulty=%s, thresholdDiff=%d) panicked: %s", x.diff, k, p))
 		return
 	}
 	eh, eerr := engHash(e, x)
@@ -527,9 +562,9 @@ func caseThr(h *H, r *hlib.Rng, variant string) {
 	}
 }
 
-func panicSig(fn string, d *big.Int) string {
-	if d.Sign() == 0 {
-		return "panic:" + fn + ":difficulty=0"
+func panicSig(fn string, p string) string {
+	if containsDivZero(p) {
+		return "workshare-div-by-zero:" + fn
 	}
 	return "panic:" + fn
 }
@@ -612,7 +647,7 @@ func caseWs(h *H, r *hlib.Rng, variant string) {
 		fmt.Sprintf("%v/%s", preFork, obs))
 	h.rep.Count("ws:" + obs)
 	if p != "" {
-		h.fail(panicSig("CheckIfValidWorkShare", x.diff), fmt.Sprintf("CheckIfValidWorkShare(difficulty=%s, primeTerminus=%s) panicked: %s", x.diff, x.ptn, p))
+		h.fail(panicSig("CheckIfValidWorkShare", p), fmt.Sprintf("CheckIfValidWorkShare(difficulty=%s, primeTerminus=%s) panicked: %s", x.diff, x.ptn, p))
 		return
 	}
 	// monitors
@@ -735,7 +770,7 @@ func caseClass(h *H, r *hlib.Rng, variant string) {
 		fmt.Sprintf("%d/%v/%s", x.aux, x.ptn.Uint64() >= fork, obs))
 	h.rep.Count("class:" + obs)
 	if p != "" {
-		h.fail(panicSig("UncleWorkShareClassification", x.diff), fmt.Sprintf("UncleWorkShareClassification(difficulty=%s, primeTerminus=%s, powid=%d) panicked: %s", x.diff, x.ptn, x.aux, p))
+		h.fail(panicSig("UncleWorkShareClassification", p), fmt.Sprintf("UncleWorkShareClassification(difficulty=%s, primeTerminus=%s, powid=%d) panicked: %s", x.diff, x.ptn, x.aux, p))
 		return
 	}
 	// monitors: a share of a donor chain counts only with donor hash strictly-or-equal below its declared target
